@@ -63,6 +63,17 @@ impl<'ast> Visit<'ast> for EscapeFinder {
     }
 }
 
+// a `continue` without label that belongs to the loop whose body is visited (nested loops and closures are skipped)
+#[derive(Default)]
+struct OwnContinueFinder { found: bool }
+impl<'ast> Visit<'ast> for OwnContinueFinder {
+    fn visit_expr_continue(&mut self, e: &'ast syn::ExprContinue) { if e.label.is_none() { self.found = true; } }
+    fn visit_expr_while(&mut self, _: &'ast syn::ExprWhile) {}
+    fn visit_expr_for_loop(&mut self, _: &'ast syn::ExprForLoop) {}
+    fn visit_expr_loop(&mut self, _: &'ast syn::ExprLoop) {}
+    fn visit_expr_closure(&mut self, _: &'ast syn::ExprClosure) {}
+}
+
 #[derive(Default)]
 struct LoopFinder {
     loops: Vec<(usize, usize, usize)>, // (expr start, body open brace, expr end)
@@ -109,14 +120,21 @@ impl<'ast> Visit<'ast> for LoopFinder {
                 }
             }
         }
-        // D30: for PAT in EXPR { ... }   (PAT an identifier; EXPR evaluated once to an indexable sequence)
+        // D30: for PAT in EXPR { ... }   (PAT an identifier; EXPR evaluated once to an indexable sequence).  Only loops
+        // that Verus cannot take as they are: a `continue` of their own, or a label (target of a labelled break).
         if let syn::Pat::Ident(_) = &*e.pat {
-            let p0 = e.pat.span().byte_range();
-            let ex = e.expr.span().byte_range();
-            self.vd.push(format!(
-                "{{\"rule\":\"D30\",\"call\":[{},{}],\"pat\":[{},{}],\"expr\":[{},{}]}}",
-                s.start, b.start + 1, p0.start, p0.end, ex.start, ex.end
-            ));
+            let mut cf = OwnContinueFinder::default();
+            cf.visit_block(&e.body);
+            if cf.found || e.label.is_some() {
+                let p0 = e.pat.span().byte_range();
+                let ex = e.expr.span().byte_range();
+                let label = match &e.label { Some(l) => format!("\"{}\"", l.name.ident), None => "null".to_string() };
+                let for_kw = e.for_token.span().byte_range();
+                self.vd.push(format!(
+                    "{{\"rule\":\"D30\",\"call\":[{},{}],\"pat\":[{},{}],\"expr\":[{},{}],\"label\":{}}}",
+                    for_kw.start, b.start + 1, p0.start, p0.end, ex.start, ex.end, label
+                ));
+            }
         }
         // D19: for (I, P) in X.iter().enumerate().take(A).skip(B) { ... }
         if let (syn::Pat::Tuple(pt), syn::Expr::MethodCall(sk)) = (&*e.pat, &*e.expr) {
